@@ -93,8 +93,10 @@ class PyFormatter(Formatter):
 
     @override(Formatter)
     def format_import_statement(self, t: Proto, as_name: Optional[str] = None) -> str:
+        # Import the module generated for proto t, which is named by its filename.
         module_name = (
-            t.get_option_as_string_or_raise("py.module_name") or f"{t.name}_bp"
+            t.get_option_as_string_or_raise("py.module_name")
+            or self.format_out_filename(t, "")
         )
         if as_name:
             return f"import {module_name} as {as_name}"
